@@ -84,13 +84,15 @@ def setup(ctx):
     for cls in (base.BaseCooccurrenceVectorizer, multi.MultiSetCooccurrenceVectorizer):
         orig = cls.__dict__["_build_coo"]
 
-        def wrapped(self, token_sequences, _orig=orig):
+        def wrapped(self, *args, _orig=orig, **kwargs):
+            # signature-agnostic: the tree under test may have added parameters
             rec = _st.get("rec")
             if rec is None or getattr(self, "_dsim_role", None) != "test":
-                return _orig(self, token_sequences)
+                return _orig(self, *args, **kwargs)
+            token_sequences = kwargs.get("token_sequences", args[0] if args else ())
             _tls.events = []
             try:
-                r = _orig(self, token_sequences)
+                r = _orig(self, *args, **kwargs)
             finally:
                 ev = _tls.events
                 _tls.events = None
@@ -102,8 +104,8 @@ def setup(ctx):
 
         origc = cls.__dict__.get("_generate_chunk_boundaries")
         if origc is not None:
-            def wrappedc(self, data, n_threads, _orig=origc):
-                r = _orig(self, data, n_threads)
+            def wrappedc(self, data, n_threads, *args, _orig=origc, **kwargs):
+                r = _orig(self, data, n_threads, *args, **kwargs)
                 rec = _st.get("rec")
                 if rec is not None and getattr(self, "_dsim_role", None) == "test":
                     rec["chunks"].append((len(data), list(r)))
